@@ -75,6 +75,12 @@ CHECKS["C04"] = dict(
     text="Bounded-exhaustive: 10 contexts x 3 call forms x arrays whose elements give value / nil / raise / are nil at every position (length <= 2 quick, 3 thorough), ints, ranges, objects, chain arguments, extra arguments, callee raising StopIterErr.",
     note=_EVN + " String and iterator receivers are outside the element model.", design="§5 C04")
 
+CHECKS["C05"] = dict(
+    technique="TLA+ spec PanProto (prototype forest state machine: Literal / Bear / Bro / unrelated-literal steps; Find, Resolve, Ancestors, KindOf): TLC explores every forest of <= 3 constructor steps and checks the forest invariants; every behaviour is replayed as a program in the real interpreter and each lookup query compared",
+    text="Bounded-exhaustive model checking of the forest machine and replay of its behaviours: for every object and name (own / inherited / shadowed / absent / via _missing): read, call with arguments, index by symbol, which, list-chain form, keys, ancestors, proto, kindOf?.",
+    note="Trusts TLC, the canonical rendering, and the marker values the replay puts into properties; objects carry a unique tag so that structural == is identity.",
+    design="§5 C05")
+
 NOT_YET = {}
 
 def main():
